@@ -336,12 +336,22 @@ def translate_heap():
     if "synchronizer.enumerate_stacks(&mut context)" in markb_nc:
         if re.search(r"for value in &live_ctx\.stack \{\s*context\.push_back", enum_b):
             rs.append("RsThreadStack")
-        if re.search(r"for frame in &live_ctx\.stack_frames \{\s*for value in frame\.function\.captures\(\) \{\s*context\.push_back", enum_b) \
+        if (re.search(r"for frame in &live_ctx\.stack_frames \{\s*for value in frame\.function\.captures\(\) \{\s*context\.push_back", enum_b)
+                or re.search(r"for frame in &live_ctx\.stack_frames \{\s*for function in frame\.live_functions\(\) \{\s*for value in function\.captures\(\) \{\s*context\.push_back", enum_b)) \
                 and re.search(r"for value in live_ctx\.current_frame\.function\.captures\(\)\s*\{\s*context\.push_back", enum_b):
             rs.append("RsThreadFrames")
         if re.search(r"for value in &live_ctx\.thread_local_storage \{\s*context\.push_back", enum_b):
             rs.append("RsThreadTls")
     facts["marked_root_sets"] = rs
+    # the exception handler installed on a LIVE frame is a root as well (F49): StackFrame::live_functions yields the
+    # frame's function and its handler closure, and every root hand-over of the frames goes through it
+    lf = re.search(r"pub\(crate\) fn live_functions\(&self\) -> impl Iterator<Item = &ByteCodeLambda> \{(.*?)\n    \}", vm, re.S)
+    lf_ok = bool(lf and re.search(r"attachments\s*\.as_ref\(\)\s*\.and_then\(\|x\| x\.handler\.as_ref\(\)\)", lf.group(1))
+                 and re.search(r"once\(self\.function\.as_ref\(\)\)\s*\.chain\(handler\)", lf.group(1)))
+    plain = len(re.findall(r"stack_frames\s*\.iter\(\)\s*\.map\(\|x\| x\.function\.as_ref\(\)\)", strip_rust_comments(vm)))
+    through = len(re.findall(r"stack_frames\s*\.iter\(\)\s*\.flat_map\(\|x\| x\.live_functions\(\)\)", vm))
+    threads = len(re.findall(r"for function in frame\.live_functions\(\)", enum_b))
+    facts["frame_handlers_rooted"] = lf_ok and plain == 0 and through >= 4 and threads >= 1
     # is the root queue emptied once marking is over (sync build: explicit clear after MARKER.mark)?
     sync_mark = re.search(r"let count = MARKER\.mark\(context\.queue\);(.*?)#\[cfg\(not\(feature = \"sync\"\)\)\]", markb_nc, re.S)
     facts["mark_queue_cleared"] = bool(sync_mark and re.search(r"context\.queue\.clear\(\)|self\.mark_and_sweep_queue\.clear\(\)", sync_mark.group(1)))
@@ -389,6 +399,8 @@ def render_gen(f):
     out.append("Definition all_rsets : list rset := [" + "; ".join(ROOT_SETS) + "].")
     out.append("(* root sets Heap::mark / Synchronizer::enumerate_stacks push on the mark queue *)")
     out.append("Definition marked_root_sets : list rset := [" + "; ".join(f["marked_root_sets"]) + "].")
+    out.append("(* the handler installed on a live frame is handed over as a root together with the frame's function *)")
+    out.append("Definition frame_handlers_rooted : bool := %s." % coq_bool(f["frame_handlers_rooted"]))
     out.append("(* Heap::mark empties the root queue after marking (sync build) *)")
     out.append("Definition mark_queue_cleared : bool := %s." % coq_bool(f["mark_queue_cleared"]))
     out.append("(* work queue of the parallel marker (MarkAndSweepContextRefQueue::push_back / pop_front, ParallelMarker::mark / new):")
